@@ -98,6 +98,8 @@ let cv_outcome (f : string array) : Model.outcome =
   Model.serve cfg canon_date acts dflt input eof
 
 let cv_case (f : string array) : string =
+  (* inputs too long for the model's (quadratic) wire accumulation are judged by the oracle only *)
+  if Array.exists (fun x -> x = "nomodel=1") f then "U" else
   let o = cv_outcome f in
   if not o.Model.o_modelled then "U"
   else
